@@ -3,6 +3,7 @@ concurrently with its (transitive) dependent."""
 import os
 import sys
 
+sys.dont_write_bytecode = True
 sys.path.insert(0, os.path.dirname(os.path.abspath(__file__)))
 from _common import scratch_project, require, emit, run_replay, tail  # noqa: E402
 
